@@ -61,21 +61,28 @@ class TeeCase(FnCase):
         for (o, d) in subs:
             if o is srcs[self.branch]:
                 handler = d.get('on_next')
-        self.order_ok = [o for (o, d) in subs] == srcs + [conn] and subs[-1][1].get('connect') is True
-        # stream errors go straight to the observer; the stream completion of branch i goes to a per-branch handler bound to i (the stream
-        # completes when ALL branches have completed: case StreamCompleted)
-        self.wiring_ok = all(isinstance(d.get('on_error'), Bound) and d['on_error'].obj is self.observer and d['on_error'].name == 'on_error'
-                             and isinstance(d.get('on_completed'), Partial) and d['on_completed'].args == [bi]
-                             for bi, (o, d) in enumerate(subs[:-1]))
+        is_branch = lambda o: any(o is s for s in srcs)
+        bsubs = [(o, d) for (o, d) in subs if is_branch(o)]
+        # besides the branches, the connectable may have passive subscribers (no on_next, no on_completed: they can only learn that the
+        # source failed); the connection comes last, after every subscription
+        taps = [(o, d) for (o, d) in subs if o is conn and not d.get('connect')]
+        self.order_ok = ([o for (o, d) in bsubs] == srcs and len(subs) > 0 and subs[-1][0] is conn and subs[-1][1].get('connect') is True
+                         and len(bsubs) + len(taps) + 1 == len(subs)
+                         and all(d.get('on_next') is None and d.get('on_completed') is None for (o, d) in taps))
+        # the termination of branch i (completion or stream error) goes to per-branch handlers bound to i: the stream terminates when ALL
+        # branches have terminated (cases StreamCompleted / SourceError*); an error raised by one branch alone is forwarded at once
+        # (case BranchError)
+        # (what the registered handlers do is decided by those cases, on whatever callable is registered)
+        self.wiring_ok = all(d.get('on_error') is not None and d.get('on_completed') is not None for (o, d) in bsubs)
         if self.case == 'StreamCompleted':
             hc = next((d.get('on_completed') for (o, d) in subs if o is srcs[self.branch]), None)
-            if not isinstance(hc, Partial) or not isinstance(hc.fn, Closure):
-                raise Unsupported('tee_map (mux): the stream completion of a branch is not handled by a per-branch closure')
+            if hc is None:
+                raise Unsupported('tee_map (mux): a branch subscription without completion handler')
             # the stream completes when ALL branches have completed, whatever the order: here the other branches complete first (in index
             # order, from the state the real subscription left), then branch b.  Nothing may be emitted before the last one.
             q.trace = Const('trace0', Trace); q.calls = []; q.pc = []
             self.trace0 = q.trace
-            for bi, (o, d) in enumerate(subs[:-1]):
+            for bi, (o, d) in enumerate(bsubs):
                 if bi == self.branch: continue
                 res2 = eng.call(q, d.get('on_completed'), [], {})
                 assert len(res2) == 1
@@ -83,6 +90,38 @@ class TeeCase(FnCase):
             self.trace_before_last = q.trace
             self.path = q
             return hc, [], {}
+        if self.case in ('SourceError', 'SourceErrorSwallowed', 'BranchError'):
+            q.trace = Const('trace0', Trace); q.calls = []; q.pc = []
+            self.trace0 = q.trace
+            self.errs = []
+            seq = []
+            if self.case == 'BranchError':
+                # the source has not failed: branch b fails on its own
+                e = Const(f'err{self.branch}', Val); self.errs.append(e)
+                seq.append((bsubs[self.branch][1].get('on_error'), [SVal(e)]))
+            else:
+                # publish() delivers the error of the source to every subscriber of the connectable in subscription order; a branch may
+                # hand over another exception (err_i), or -- SourceErrorSwallowed, branch b -- recover from it and complete
+                for (o, d) in subs:
+                    if o is conn and not d.get('connect'):
+                        if d.get('on_error') is not None:
+                            seq.append((d['on_error'], [SVal(Const('source_err', Val))]))
+                    elif is_branch(o):
+                        bi = next(t for t, s in enumerate(srcs) if s is o)
+                        if self.case == 'SourceErrorSwallowed' and bi == self.branch:
+                            seq.append((d.get('on_completed'), []))
+                        else:
+                            e = Const(f'err{bi}', Val); self.errs.append(e)
+                            seq.append((d.get('on_error'), [SVal(e)]))
+            if any(h is None for h, _ in seq):
+                raise Unsupported('tee_map (mux): a branch subscription without termination handler')
+            for h, a in seq[:-1]:
+                res2 = eng.call(q, h, a, {})
+                assert len(res2) == 1
+                q = res2[0][0]
+            self.trace_before_last = q.trace
+            self.path = q
+            return seq[-1][0], seq[-1][1], {}
         fn = handler.fn if isinstance(handler, Partial) else handler
         self.handler_index_ok = isinstance(handler, Partial) and handler.args == [self.branch]
         sc = fn.scope
@@ -106,7 +145,7 @@ class TeeCase(FnCase):
     def requires(self):
         n = self.n
         r = [Key.is_KK(K_), Key.h(K_) >= 0, LEN >= 0, Not(V.is_VSent(X_))]
-        if self.case == 'StreamCompleted':
+        if self.case in ('StreamCompleted', 'SourceError', 'SourceErrorSwallowed', 'BranchError'):
             return []
         if self.case in ('Next', 'Completed') and (self.zip or self.combine):
             r.append(LEN >= (Key.h(K_) + 1) * n)        # the key was created: its cells exist
@@ -125,6 +164,14 @@ class TeeCase(FnCase):
         if self.case == 'StreamCompleted':
             return [('nothing_completed_before_the_last_branch', self.trace_before_last == self.trace0),
                     ('completes_when_all_branches_done', q.trace == Concat(self.trace0, Unit(em(OUT, Ev.Done))))]
+        if self.case in ('SourceError', 'SourceErrorSwallowed'):
+            # C13 (a router in any branch sees the stream error and its dead letter completes): nothing is signalled downstream -- which
+            # would dispose the remaining branches -- before every branch has terminated; then exactly one on_error, with an error a
+            # branch handed over
+            return [('nothing_signalled_before_the_last_branch', self.trace_before_last == self.trace0),
+                    ('fails_once_when_all_branches_terminated', Or(*[q.trace == Concat(self.trace0, Unit(em(OUT, Ev.Err(e)))) for e in self.errs]))]
+        if self.case == 'BranchError':
+            return [('branch_error_forwarded_at_once', q.trace == Concat(self.trace0, Unit(em(OUT, Ev.Err(self.errs[0])))))]
         k0 = Key.h(K_); base = k0 * n
         cq, ch = q.heap[self.queue.oid], q.heap[self.has.oid]
         i = Int('ei')
@@ -139,7 +186,10 @@ class TeeCase(FnCase):
                 out.append(('emits.create_from_branch0_only', emits(em(OUT, Ev.Create(K_)))))
                 if joined:
                     out.append(('cells.exist', And(cq[2] >= (k0 + 1) * n, cq[2] == ch[2], cq[2] >= LEN)))
-                    out.append(('cells.old_unchanged', ForAll([i], Implies(And(i >= 0, i < LEN), And(Select(cq[1], i) == Select(QA, i), Select(ch[1], i) == Select(HA, i))))))
+                    # C02 / C08: a lifetime starts with empty cells, however the previous lifetime on this key slot ended (a mux error
+                    # that ends a window does not pass through the reset done on completion)
+                    out.append(('cells.other_keys_unchanged', ForAll([i], Implies(And(i >= 0, i < LEN, Or(i < base, i >= base + n)), And(Select(cq[1], i) == Select(QA, i), Select(ch[1], i) == Select(HA, i))))))
+                    out.append(('cells.fresh_for_the_new_lifetime', And(*[And(Select(cq[1], base + t) == V.VNone, V.i(Select(ch[1], base + t)) == 0) for t in range(n)])))
                     out.append(('cells.new_empty', ForAll([i], Implies(And(i >= LEN, i < cq[2]), And(Select(cq[1], i) == V.VNone, V.i(Select(ch[1], i)) == 0)))))
                 else:
                     out.append(('cells.untouched', cells_same))
@@ -237,5 +287,11 @@ def unit_tee_wiring(opts):
 def unit_tee_map(opts):
     n = opts.get('n', 2)
     join = opts.get('join', 'zip')
+    if opts.get('which') == 'termination':
+        # C13 only: how the stream terminates when the source fails (an error router in any branch must see the failure); the join
+        # properties (C01 / C02 / C03 / C08 / C11) say nothing about it
+        cases = [TeeCase(n, join, b, c) for b in range(n) for c in ('StreamCompleted', 'SourceErrorSwallowed', 'BranchError')]
+        cases.append(TeeCase(n, join, 0, 'SourceError'))
+        return run_cases(f'tee_map.mux.termination[n={n},{join}]', cases, opts)
     cases = [TeeCase(n, join, b, c) for b in range(n) for c in ('Create', 'Next', 'Completed', 'Error', 'Probe', 'StreamCompleted')]
     return run_cases(f'tee_map.mux[n={n},{join}]', cases, opts)
